@@ -183,7 +183,8 @@ pub fn t_roundtrip<S: Shape>(inp: &mut Inp) {
 // ------------------------------------------------------------------------------------------ sources
 /// Blocking source with a *concrete* delivery schedule and symbolic contents.
 /// mode 0: every read satisfied in full; 1: one byte per call; 2: alternating 1 and 2 bytes;
-/// mode 3: as 1, with `Interrupted` before every byte whose offset is a multiple of 3.
+/// mode 3: as 1, with `Interrupted` before every byte whose offset is a multiple of 3;
+/// mode 6: full reads with one `Interrupted` exactly at offset 9; mode 7: uniform 3-byte reads.
 /// `fail`: at offset k the source returns the given error instead of data.
 pub struct Src {
     pub data: &'static [u8],
@@ -228,6 +229,7 @@ impl Read for Src {
         }
         let want = match self.mode {
             0 | 6 => n,
+            7 => 3,
             2 => 1 + (self.calls % 2),
             _ => 1,
         };
